@@ -38,6 +38,13 @@ def cases(tier, seed):
                         hostile=(i % 3 == 0)))
         if out[-1]["hostile"]:
             out[-1].update(par=R.choice([2, 3, 8]), n=R.choice([3, 4, 6, 9]), overlap=R.choice([7, 40]))
+            if i % 2 == 0:
+                # a stack of full-frame exposures: every input touches every tile, three or four workers contend for each
+                # tile until the very end of the run
+                out[-1].update(stack=True, dtype="F32", par=R.choice([3, 4]), n=R.choice([5, 6, 8]), W=R.randrange(260, 500), H=R.randrange(260, 500))
+    for i in range(6 if tier == "quick" else 80):
+        out.append(dict(W=R.randrange(260, 500), H=R.randrange(260, 500), n=R.choice([5, 6, 8]), overlap=7, nanborder=0, dtype="F32", bu=R.random() < 0.5, par=R.choice([3, 4]),
+                        via="api", profile=R.choice(["natural", "jitter", "slow_workers"]), seed=R.randrange(1 << 30), hostile=True, stack=True))
     return out
 
 
@@ -121,7 +128,10 @@ def run_multi_tan(spec, paths, out, par, via, log, profile):
 
             def fn():
                 sched.dilate_clocks(300.0, names=("perf_counter",))
-                sched.install(spec["seed"], p=0.04, files=("pyramid.py", "multi_tan.py"), lo=0.002, hi=0.15, budget=2.5)
+                if spec.get("stack"):
+                    sched.install(spec["seed"], p=0.08, files=("pyramid.py",), lo=0.01, hi=0.2, budget=5.0)  # long updates: always a holder and a waiter
+                else:
+                    sched.install(spec["seed"], p=0.04, files=("pyramid.py", "multi_tan.py"), lo=0.002, hi=0.15, budget=2.5)
                 inner()
 
         outcome, info = models.run_stage(fn, log, "producer", watchdog=200)
@@ -160,18 +170,25 @@ def run_case(spec, workdir):
     isint = spec["dtype"] == "I16"
     mosaic = rng.integers(1, 20000, (H, W)).astype(np.int16) if isint else rng.normal(size=(H, W)).astype(np.float32)
     rects = decompose(R, W, H, spec["n"], spec["overlap"])
-    layers = (not isint) and spec["seed"] % 3 == 0
+    layers = (not isint) and (spec["seed"] % 3 == 0 or bool(spec.get("stack")))
     blobs = {}
     if layers:
         # "layers": every input spans (nearly) the whole mosaic and carries large undefined blobs; the blobs of different
         # inputs are disjoint, so the union is defined everywhere, tiles are fully covered by inputs that are undefined
         # inside them, and an undefined pixel of a later input always lies over a defined pixel of an earlier one
-        k = max(2, min(3, spec["n"]))
+        k = max(2, min(3, spec["n"])) if not spec.get("stack") else max(4, min(6, spec["n"]))
         rects = [(0, 0, W, H)] + [(R.randrange(0, 30), R.randrange(0, 30), W - 30 - R.randrange(0, 30), H - 30 - R.randrange(0, 30)) for _ in range(k - 1)]
         yy, xx = np.mgrid[0:H, 0:W]
-        stripe = ((xx // R.choice([97, 256, 300])) + (yy // R.choice([131, 256, 280]))) % k
-        for i in range(k):
-            blobs[i] = stripe == i
+        if spec.get("stack"):
+            # each exposure contributes pixels that NO other input defines (its own fine stripes): losing one update of
+            # one tile is visible in the result
+            stripe = ((xx // R.choice([3, 7, 16])) + (yy // R.choice([5, 11]))) % k
+            for i in range(k):
+                blobs[i] = stripe != i
+        else:
+            stripe = ((xx // R.choice([97, 256, 300])) + (yy // R.choice([131, 256, 280]))) % k
+            for i in range(k):
+                blobs[i] = stripe == i
     ref = (W / 2.0 + R.choice([0, 0.5, 13]), H / 2.0 + R.choice([0, -7]))
     scale = 10 ** R.uniform(-4, -2.5)
     crval = (R.uniform(0, 360), R.uniform(-70, 70))
